@@ -28,7 +28,17 @@ def present_kripke(K, pres, rng):
     if pres.get('shuf') is not None:
         rng.shuffle(S), rng.shuffle(R), rng.shuffle(L)
     S0 = [name(i) for i in range(n) if i % 2 == 0]
-    k = pymc.Kripke(S=S, S0=S0, R=R, L=dict(L))
+    how = rng.randrange(6)
+    if how == 0:
+        # two-step construction: the labelling function is installed afterwards and is also defined on objects that are
+        # not states of this structure (one labelling shared by several models)
+        k = pymc.new_kripke(S, S0, R, None, sub=rng.random() < 0.3)
+        Ld = dict(L)
+        for j in range(n, n + 2):
+            Ld[name(j)] = set(['p', 'q']) | set(amap.values())
+        k.replace_labelling_function(Ld)
+    else:
+        k = pymc.new_kripke(pymc.as_container(S, rng), pymc.as_container(S0, rng), pymc.as_container(R, rng, pairs=True), dict(L), sub=(how == 1))
     return k, name, {name(i): i for i in range(n)}
 
 
@@ -113,10 +123,23 @@ def run_history(h):
             formula(j, 'obj', k)
     results = {}
 
+    first = {}
+    drift = [0]
+
     def projection():
-        return {'ks': [proj_kripke(k, idx, None) for k, _, idx in kobjs],
-                'fs': [proj_formula(fobj[key]) for key in sorted(fobj, key=str)],
-                'res': {str(r): _proj_res(v, kobjs[kk][2]) for r, (v, kk) in results.items()}}
+        pr = {'ks': [proj_kripke(k, idx, None) for k, _, idx in kobjs],
+              'fs': [proj_formula(fobj[key]) for key in sorted(fobj, key=str)],
+              'res': {str(r): _proj_res(v, kobjs[kk][2]) for r, (v, kk) in results.items()}}
+        # attribute NAMES of the caller's objects: a new attribute (e.g. a correctly maintained cache) is not by itself a
+        # change of the structure or the formula - it is reported as drift (diagnostic), the verdict is behavioural
+        # (deep projection of states/transitions/labels/tree, and the twin call below)
+        for kind in ('ks', 'fs'):
+            for i, x in enumerate(pr[kind]):
+                a0 = first.setdefault((kind, i), x.get('attrs'))
+                if x.get('attrs') != a0 and not (x.get('attrs') or [''])[0].startswith('projection failed'):
+                    drift[0] += 1
+                    x['attrs'] = a0
+        return pr
     events = [{'trace': h['trace'], 'i': 0, 'op': 'init', 'ks': h['ks'], 'fs': [{'logic': x['logic'], 'f': x['f']} for x in h['fs']],
                'proj': projection()}]
     for st in h['steps']:
@@ -127,18 +150,29 @@ def run_history(h):
             kobj, name, idx = kobjs[k]
             n = h['ks'][k]['n']
             fair = st['fair']
-            F = None if fair == 'none' else [set(name(i) for i in range(n))] if fair == 'all' else [] if fair == 'empty' else [set([name(0)]), set(name(i) for i in range(n) if i % 2 == 1) or set([name(0)])]
+            F = pymc.present_F(None if fair == 'none' else [list(range(n))] if fair == 'all' else [] if fair == 'empty' else [[0], [i for i in range(n) if i % 2 == 1] or [0]], name, rng)
             fo = formula(j, st['mode'], k)
             out = mcfam.with_time_limit(lambda: call_mc(h['fs'][j]['logic'], kobj, fo, F=F), h.get('limit', 20.0))
             ev['out'] = mcfam.project_result(out, idx)
             if out[0] == 'ret':
                 results[st['r']] = (out[1], k)
+                if not isinstance(fo, str):
+                    # the result depends only on the arguments: an EQUAL formula given as a freshly built object (no history)
+                    # must give an equal set on the same structure
+                    fl = h['fs'][j]
+                    f2 = T(fl['f'])
+                    if odd[k]:
+                        f2 = rename_atoms(f2, ODD_ATOMS)
+                    twin = mcfam.with_time_limit(lambda: call_mc(fl['logic'], kobj, to_obj(f2, LANGS[fl['logic']]), F=F), h.get('limit', 20.0))
+                    if twin[0] != 'timeout':
+                        tp = mcfam.project_result(twin, idx)
+                        ev['out']['twin'] = tp['ret'] if 'ret' in tp else [-9]
         elif st['op'] == 'badcall':
             k = st['k'] - 1
             kobj, name, idx = kobjs[k]
             n = h['ks'][k]['n']
             fair = st['fair']
-            F = None if fair == 'none' else [set(name(i) for i in range(n))] if fair == 'all' else [] if fair == 'empty' else [set([name(0)])]
+            F = pymc.present_F(None if fair == 'none' else [list(range(n))] if fair == 'all' else [] if fair == 'empty' else [[0]], name, rng)
             bl = h['bad'][st['b'] - 1]
             if ('bad', st['b']) not in fobj:
                 fobj[('bad', st['b'])] = to_obj(T(bl['f']), pymc.CTLS)
@@ -158,7 +192,9 @@ def run_history(h):
             if st['r'] in results:
                 v, kk = results[st['r']]
                 try:
-                    if st['kind'] == 'clear':
+                    if isinstance(v, frozenset):
+                        ev['noop'] = 1           # an immutable result cannot be edited at all: the strongest form of ownership
+                    elif st['kind'] == 'clear':
                         v.clear()
                     elif st['kind'] == 'add':
                         v.add(FOREIGN)
@@ -179,6 +215,8 @@ def run_history(h):
             results.pop(st['r'], None)
         ev['proj'] = projection()
         events.append(ev)
+    if drift[0]:
+        events[0]['attr_drift'] = drift[0]
     return events
 
 
